@@ -623,7 +623,9 @@ def run(ctx):
     nreal = 1 if quick else 4
     for ri in range(nreal):
         g = [dict(NT=4, T_MIN=0, DT=100, NTV=6, P_MIN=0, DELTA_P=2),
-             dict(NT=6, T_MIN=20, DT=37.5, NTV=9, P_MIN=1, DELTA_P=1.5)][ri]
+             dict(NT=6, T_MIN=20, DT=37.5, NTV=9, P_MIN=1, DELTA_P=1.5),
+             dict(NT=3, T_MIN=300, DT=250, NTV=5, P_MIN=2.5, DELTA_P=0.75),
+             dict(NT=8, T_MIN=0, DT=12.5, NTV=12, P_MIN=0, DELTA_P=1.25)][ri % 4]
         out = dict(pressure_base=["cij", "isothermal_elastic_moduli", "bm_VRH", "B_V", "G_R", "G_VRH", "v", "vs", "vp",
                                   dict(keyword="bm_R", fname="reuss_kbar.txt", unit="kbar")],
                    volume_base=["p", "cij_t", "adiabatic_elastic_moduli", "shear_modulus_voigt", "v_s"])
